@@ -79,13 +79,13 @@ def gen_history(seed, case, nops, profile, oracles=(), on_step=None):
     elif profile == 'naming' and rng.random() < 0.3:
         # siblings of one scope whose identifiers differ only in letter case, built while no EDIF policy
         # looks, then the policy arrives from above (assignment to the root): must be refused whatever
-        # the scope (ports, cables, instances)
+        # the scope (ports, cables, instances; libraries of a netlist, definitions of a library)
         from ir_world import tok_of_s
-        rel = rng.choice(['ports', 'cables', 'children'])
+        rel = rng.choice(['ports', 'cables', 'children', 'libs', 'defs'])
         a, b = rng.choice([('Ab', 'aB'), ('sig_A', 'SIG_a'), ('x1', 'X1')])
         ident = tok_of_s('EDIF.identifier')
-        items = '0' if rel == 'children' else '1'
-        prefix = [['new', 'definition', tok_of_s('d'), '0'],
+        items = '1' if rel in ('ports', 'cables') else '0'
+        prefix = [['new', {'libs': 'netlist', 'defs': 'library'}.get(rel, 'definition'), tok_of_s('d'), '0'],
                   ['create', rel, '0', tok_of_s('n1'), '1', ident, 's:' + tok_of_s(a), items, '~'],
                   ['create', rel, '0', tok_of_s('n2'), '1', ident, 's:' + tok_of_s(b), items, '~'],
                   ['dset', '0', tok_of_s('.NS'), 's:' + tok_of_s('EDIF')]]
